@@ -216,7 +216,7 @@ Qed.
 
 Lemma sparse_adder_spec add cols r :
   adder_ok add -> all_le2 cols = true -> sparse_adder add cols = Some r -> bval r = colsum cols.
-Proof. unfold sparse_adder. apply sparse_adder_with_spec. exact sparse_split_ok. Qed.
+Proof. unfold sparse_adder. apply sparse_adder_with_spec. exact sparse_split_total_ok. Qed.
 
 Lemma colsum_mod_of_firstn rw r x : eqm rw (bval r) x -> bval (firstn rw r) = x mod 2 ^ Z.of_nat rw.
 Proof. intros H. rewrite bval_firstn. exact H. Qed.
